@@ -366,6 +366,53 @@ func apiProbes() []probe {
 			f(3)
 			return nil
 		}},
+		{"variadic wrapper, cached variadic injector (bind, then invoke twice)", func() error {
+			var f func(int) string
+			err := nject.Sequence("p", func() []string { return []string{"a", "b"} },
+				func(inner func() string, s ...string) string { return inner() + fmt.Sprint(len(s)) },
+				nject.Cacheable(func(s ...string) T0 { return T0{Tag: uint64(3 + len(s))} }),
+				func(a T0) string { return fmt.Sprint(a.Tag) }).Bind(&f, nil)
+			if err != nil {
+				return err
+			}
+			if f(3) != "52" || f(3) != "52" {
+				panic("wrong value delivered")
+			}
+			return nil
+		}},
+		{"Curry of a variadic function", func() error {
+			var c func(string) string
+			p, err := nject.Curry(func(s string, i int, more ...string) string { return fmt.Sprint(s, i, more) }, &c)
+			if err != nil {
+				return err
+			}
+			var f func(int) string
+			if err := nject.Sequence("p", func() []string { return []string{"x"} }, p, func(g func(string) string) string { return g("s") }).Bind(&f, nil); err != nil {
+				return err
+			}
+			f(1)
+			return nil
+		}},
+		{"SaveTo and MakeStructBuilder next to a variadic final function", func() error {
+			type S struct{ A []string }
+			var a []string
+			st, err := nject.SaveTo(&a)
+			if err != nil {
+				return err
+			}
+			sb, err := nject.MakeStructBuilder(S{})
+			if err != nil {
+				return err
+			}
+			var f func() int
+			if err := nject.Sequence("p", func() []string { return []string{"x", "y"} }, st, sb, func(s S, more ...string) int { return len(s.A) + len(more) }).Bind(&f, nil); err != nil {
+				return err
+			}
+			if f() != 4 || len(a) != 2 {
+				panic("wrong value delivered")
+			}
+			return nil
+		}},
 		{"variadic invoke function", func() error {
 			var f func(i int, s ...string) string
 			err := nject.Sequence("p", func(i int, s []string) string { return fmt.Sprint(i, s) }).Bind(&f, nil)
